@@ -315,6 +315,33 @@ Section FieldFacts.
                rewrite Hy11, c2_sq, Hrc.
                transitivity (- (c3 * c3) * (gx1 * (u * u + u * u))); [ring|]. rewrite c3_sq. unfold t. ring.
     Qed.
+
+    (* mapToCurveElligator2Edwards25519: the rational map (u, v) -> (c1 u / v, (u - 1) / (u + 1)) sends the
+       Montgomery curve v^2 = u^3 + J u^2 + u to the twisted Edwards curve -x^2 + y^2 = 1 + d x^2 y^2,
+       given c1^2 = -(J + 2) and d (J + 2) = -(J - 2); the exceptional case (denominator 0) is sent to (0, 1) *)
+    Variables (c1 d : F).
+    Hypothesis c1_sq : c1 * c1 = - (J + (1 + 1)).
+    Hypothesis d_def : d * (J + (1 + 1)) = - (J - (1 + 1)).
+    Hypothesis J2_nz : J + (1 + 1) <> 0.
+
+    Theorem elligator2_edwards_on_curve : forall u,
+      let '(xn, xd, yn, yd) := mapToCurveElligator2Edwards25519 K c2 c3 J c1 sgn0 u in
+      xd <> 0 /\ yd <> 0 /\
+      - (xn * xn) * (yd * yd) + yn * yn * (xd * xd) = xd * xd * (yd * yd) + d * (xn * xn) * (yn * yn).
+    Proof.
+      intros u. unfold mapToCurveElligator2Edwards25519.
+      pose proof (elligator2_on_curve u) as Hm.
+      destruct (mapToCurveElligator2Curve25519 K c2 c3 J sgn0 u) as [[[xMn xMd] yMn] yMd].
+      destruct Hm as [-> [HxMd Hm]]. cbv zeta.
+      destruct (fis0 K (xMd * yMn * (xMn + xMd))) eqn:E.
+      - repeat split; try exact f_1_neq_0. ring.
+      - apply fis0_neq in E.
+        assert (H1 : xMd * yMn <> 0). { intro H0. apply E. rewrite H0. ring. }
+        assert (H2 : xMn + xMd <> 0). { intro H0. apply E. rewrite H0. ring. }
+        split; [exact H1|]. split; [exact H2|].
+        apply (cancel_nz (J + (1 + 1))); [exact J2_nz|].
+        nsatzT.
+    Qed.
   End Elligator2.
 
 End FieldFacts.
